@@ -138,10 +138,19 @@ fn run_case(case: &Value) -> Value {
     }
 
     // --- the generator --------------------------------------------------
+    #[cfg(wgsl_to_wgpu_verif)]
+    wgsl_to_wgpu::verif_hooks::reset_counters();
+    let t_gen = std::time::Instant::now();
     let generated = catch_unwind(AssertUnwindSafe(|| match include {
         None => wgsl_to_wgpu::create_shader_module_embedded(wgsl, options),
         Some(path) => wgsl_to_wgpu::create_shader_module(wgsl, path, options),
     }));
+    res["gen_us"] = json!(t_gen.elapsed().as_micros() as u64);
+    #[cfg(wgsl_to_wgpu_verif)]
+    {
+        let (walks, visits) = wgsl_to_wgpu::verif_hooks::counters();
+        res["counters"] = json!([walks, visits]);
+    }
     match generated {
         Ok(Ok(text)) => {
             res["result"] = json!("ok");
